@@ -506,7 +506,58 @@ def execute_blocking(case):
                   (["start-from-caller-thread"] if case["start"] else []))
 
 
-PARTS = [Part("blocking-runtime", None, execute_blocking, quick=0, thorough=0, shards=1,
+def enumerate_fresh(tier):
+    for first in ("buffer", "map_async", "latest", "from_periodic"):
+        for then in ("stream", "from_periodic", "from_q"):
+            for child in (None, "buffer", "timed_window"):
+                yield {"fresh": True, "first": first, "then": then, "child": child}
+
+
+def execute_fresh(case):
+    """the moment the shared background loop comes into being (first blocking node that needs a
+    loop) must not change what the caller's thread regards as its current loop: a pipeline
+    declared asynchronous right afterwards still binds the caller's loop"""
+    v = []
+    saved = list(score._io_loops)
+    del score._io_loops[:]          # the next blocking loop-requiring node creates a fresh one
+    try:
+        with install():
+            env = {"current": IOLoop.current(), "other": None}
+            if case["first"] == "from_periodic":
+                blocking = make_root("from_periodic", None, "none", env)
+            else:
+                blocking = make_child(Stream(), case["first"], None, "none", env)
+            if blocking.loop is env["current"] or not score._io_loops:
+                v.append(("%s:fresh:blocking-node-not-on-background-loop" % ID, str(case)))
+            if IOLoop.current() is not env["current"]:
+                v.append(("%s:fresh:background-loop-became-the-callers-current-loop" % ID,
+                          "%s: after building a blocking %s, IOLoop.current() in the caller's "
+                          "thread is no longer the caller's loop" % (case, case["first"])))
+            root = make_root(case["then"], True, "none", env)
+            node = make_child(root, case["child"], None, "none", env) if case["child"] else root
+            for n in pipeline_nodes(node):
+                if n.loop is not env["current"]:
+                    v.append(("%s:fresh:async-pipeline-bound-to-background-loop" % ID,
+                              "%s: %s(asynchronous=True) built right after the first blocking "
+                              "node is bound to %s" % (case, type(n).__name__,
+                                                       "the background loop" if score._io_loops and
+                                                       n.loop is score._io_loops[-1] else repr(n.loop))))
+                    break
+    finally:
+        for lp in score._io_loops:
+            try:
+                lp.add_callback(lp.stop)     # let the extra background thread end
+            except Exception:
+                pass
+        score._io_loops[:] = saved
+    seen = set()
+    v = [x for x in v if not (x[0] in seen or seen.add(x[0]))]
+    return Result(v, nontrivial=True, classes=["fresh-background-loop"])
+
+
+PARTS = [Part("fresh-background-loop", None, execute_fresh, quick=0, thorough=0, shards=1,
+              exhaustive=enumerate_fresh),
+         Part("blocking-runtime", None, execute_blocking, quick=0, thorough=0, shards=1,
               exhaustive=enumerate_blocking),
          Part("kafka-source", None, execute_kafka, quick=0, thorough=0, shards=1,
               exhaustive=enumerate_kafka),
